@@ -10,6 +10,8 @@ mode=sched (scripted overlap on one GenericCache, real-time order):
 mode=part (scripted overlap on the cache part store): pput <id> v<id>.<n> | pdel <id> | pget <id> <desc|notfound|err> <tag>
 mode=partfault (sequential history on the cache part store over a faulty inner store; three lines per call):
   pput <i> <vid> <n> | pputfail <i> <vid> <n> <at> | pget <i> <k|-> <sep|tog> | pgethalf <i> | pdel <i> | pevict <i>
+  pdelw <i> <before|after> | pputw <i> <vid> <n> <before|after>: the call with a complete GetPart served while it is in
+  flight at the gated inner store (`res ok win=<bytes:desc|notfound|err>,<inner streams of that read>`)
   res ok | res err [<bytes before the error>] | res bytes <desc> | res notfound | res half <desc> | res halfeof <desc>
   inner <number of inner GetPart streams the call opened>
 mode=child: child exit=<n> fatal=<none|concurrent-map-access|panic|other>
@@ -35,6 +37,8 @@ def kvOf (toks : List String) (k : String) : String :=
 def codeGuarded : Option Bool := guardedOfCond Gen.CacheLocks.lfuLoopCond
 def codeDedupe : Option Bool := dedupeOfRemoves Gen.CacheLocks.lfuRemovesBeforeLoop
 def codeFsAtomic : Bool := fsAtomicOfOps Gen.CacheLocks.fsStoreOps
+/-- Does the cache part store's DeletePart remove the cache entry BEFORE the inner store deletes? -/
+def codeDeleteCacheFirst : Bool := Gen.CacheLocks.partStoreDeleteCacheFirst
 /-- Does the in-memory persistor guard every access to its map with a mutex of its own? -/
 def codeInmemorySync : Bool := Gen.CacheLocks.inmemoryMapAccesses.all (·.2)
 /-- Persistor calls GenericCache makes without holding `mu`. -/
@@ -249,13 +253,13 @@ def judgePart (cfg : List String) (lines : List String) : Verdict := Id.run do
   let pre : Part.St := { Part.init [] with inner := [(0, 1050)], puts := [(0, 1050)] }
   let model : Option (List (Option Nat)) :=
     if sched == "0" then
-      some ((Part.run { pre with threads := [.get 0 false .lookup none, .delete 0 0, .get 0 false .lookup none, .get 0 false .lookup none] }
+      some ((Part.run { pre with threads := [.get 0 false .lookup none, .delete 0 codeDeleteCacheFirst 0, .get 0 false .lookup none, .get 0 false .lookup none] }
         [0, 0, 1, 1, 0, 2, 3]).returned.reverse.map (·.2))
     else if sched == "1" then
       some ((Part.run { pre with threads := [.get 0 false .lookup none, .put 0 2030 0, .get 0 false .lookup none, .get 0 false .lookup none] }
         [0, 0, 1, 1, 0, 2, 3]).returned.reverse.map (·.2))
     else if sched == "2" then
-      some ((Part.serial (Part.init []) [.put 0 1050 0, .get 0 false .lookup none, .get 0 false .lookup none, .delete 0 0,
+      some ((Part.serial (Part.init []) [.put 0 1050 0, .get 0 false .lookup none, .get 0 false .lookup none, .delete 0 codeDeleteCacheFirst 0,
         .get 0 false .lookup none, .put 0 2020 0, .get 0 false .lookup none]).returned.reverse.map (·.2))
     else none
   match model with
@@ -309,8 +313,45 @@ def judgePartFault (cfg : List String) (lines : List String) : Verdict := Id.run
         if res != ["err"] then div := div ++ [s!"op{idx}:PutPart-with-a-failing-body-answered-{res}"]
       | "pdel" =>
         cur := cur.filter (·.1 != i)
-        s := Part.runToEnd s (.delete i 0)
+        s := Part.runToEnd s (.delete i codeDeleteCacheFirst 0)
       | "pevict" => s := { s with cache := Part.erase s.cache i }
+      | "pdelw" | "pputw" =>
+        -- a complete GetPart of the id served while the call is in flight at the gated inner store
+        let isDel := op.getD 0 "" == "pdelw"
+        let pos := op.getD (op.length - 1) ""
+        let v := if isDel then 0 else (valNum s!"v{op.getD 2 "0"}.{op.getD 3 "0"}" |>.getD 0)
+        let th0 : Part.Thread := if isDel then .delete i codeDeleteCacheFirst 0 else .put i v 0
+        -- which of the call's two steps touches the inner store (the gate sits around that step)
+        let innerFirst := if isDel then !codeDeleteCacheFirst else true
+        let wtok := kvOf res "win"
+        let (wres, wreads) := match wtok.splitOn "," with
+          | [a, b] => (a, b.toNat!)
+          | _ => (wtok, 0)
+        if res.head? != some "ok" then div := div ++ [s!"op{idx}:{opl.replace " " "_"}:failed"]
+        -- steps before the window read
+        let r1 := Part.stepThread s th0
+        let pre : Nat := if innerFirst then (if pos == "before" then 0 else 1) else (if pos == "before" then 1 else 2)
+        let sA := if pre == 0 then s else if pre == 1 then r1.1 else (Part.stepThread r1.1 r1.2).1
+        if tie then
+          let sA := if !exact && wreads == 1 && (Part.lookup sA.cache i).isSome then { sA with cache := Part.erase sA.cache i } else sA
+          let predReads := if (Part.lookup sA.cache i).isNone && (Part.lookup sA.inner i).isSome then 1 else 0
+          let sB := Part.runToEnd sA (.get i false .lookup none)
+          let pred := match partRes sA sB with
+            | "notfound" => "notfound"
+            | "err" => "err"
+            | x => "bytes:" ++ (x.drop 6).toString
+          let obs := if wres.startsWith "bytes:" then s!"bytes:{(valNum (wres.drop 6).toString).getD 0}" else wres
+          if pred != obs || predReads != wreads then
+            div := div ++ [s!"op{idx}:{opl.replace " " "_"}:in-flight-read:model={pred}/inner-reads={predReads}:impl={obs}/inner-reads={wreads}"]
+          -- the remaining steps of the call
+          let th1 := r1.2
+          let sC := if pre == 0 then (let a := Part.stepThread sB th0; (Part.stepThread a.1 a.2).1)
+                    else if pre == 1 then (Part.stepThread sB th1).1 else sB
+          s := sC
+        else
+          s := (let a := Part.stepThread s th0; (Part.stepThread a.1 a.2).1)
+        if isDel then cur := cur.filter (·.1 != i) else cur := (i, v) :: cur.filter (·.1 != i)
+        stats := addStats stats [("part_calls_with_read_in_flight", 1)]
       | "pgethalf" =>
         -- the caller closes early: as far as the cache is concerned, a fill that fails
         if tie then
@@ -326,7 +367,8 @@ def judgePartFault (cfg : List String) (lines : List String) : Verdict := Id.run
             let pre := match valNum d, stored with
               | some a, some b => a / 1000 == b / 1000 && a % 1000 < b % 1000
               | _, _ => false
-            vio := vio ++ [(if pre then "C19.partstore-served-partial-bytes" else "C19.partstore-served-wrong-bytes",
+            vio := vio ++ [(if stored.isNone then "C19.partstore-served-deleted-bytes"
+                else if pre then "C19.partstore-served-partial-bytes" else "C19.partstore-served-wrong-bytes",
               s!"op{idx}:{opl.replace " " "_"}:GetPart-returned-{d}-without-error:stored={match stored with | some b => toString b | none => "nothing"}")]
         | "panic" :: _ => vio := vio ++ [("C19.panic", s!"op{idx}:{opl.replace " " "_"}")]
         | _ => pure ()
